@@ -25,7 +25,11 @@ pub const DEAD: u8 = 0xFE;
 pub enum BlockState {
     Live,
     Quarantined,
+    /// verified untouched and returned to the system (quarantine budget)
+    Freed,
 }
+
+pub const QUARANTINE_BUDGET: usize = 64 << 20;
 
 #[derive(Clone, Copy, Debug)]
 pub struct Block {
@@ -66,6 +70,7 @@ pub struct Env {
     pub elem_size: usize,
     pub elem_align: usize,
     pub violations: Vec<String>,
+    pub quarantined_bytes: usize,
     salt_state: u64,
 }
 
@@ -73,7 +78,7 @@ thread_local! {
     static ENV: RefCell<Env> = RefCell::new(Env {
         policy: EnvPolicy { relocate: 0, over_expand: 0, over_exact: 0, realloc_moves: 1, salt: 0 },
         blocks: Vec::new(), c: MemCounters { builds:0, builds_sized:0, expands:0, expands_exact:0, resizes:0, drops:0, cap_changes:0, relocations:0, injected_failures:0, live_blocks:0 },
-        fail_at: 0, elem_size: 0, elem_align: 1, violations: Vec::new(), salt_state: 0,
+        fail_at: 0, elem_size: 0, elem_align: 1, violations: Vec::new(), quarantined_bytes: 0, salt_state: 0,
     });
 }
 
@@ -96,7 +101,11 @@ pub fn begin_run(policy: EnvPolicy, elem_size: usize, elem_align: usize) {
 }
 
 fn free_all(e: &mut Env) {
+    e.quarantined_bytes = 0;
     for b in e.blocks.drain(..) {
+        if b.state == BlockState::Freed {
+            continue;
+        }
         unsafe {
             System.dealloc(b.base as *mut u8, Layout::from_size_align_unchecked(b.total, b.align.max(GUARD)));
         }
@@ -170,6 +179,23 @@ pub fn block_release(id: usize) {
         unsafe { std::ptr::write_bytes(b.data as *mut u8, POISON, b.len) };
         e.blocks[id].state = BlockState::Quarantined;
         e.c.live_blocks -= 1;
+        e.quarantined_bytes += b.total;
+        // bounded quarantine: beyond the budget the oldest released blocks are verified and freed
+        while e.quarantined_bytes > QUARANTINE_BUDGET {
+            let oldest = match e.blocks.iter().position(|b| b.state == BlockState::Quarantined && b.total > 0) {
+                Some(i) => i,
+                None => break,
+            };
+            let ob = e.blocks[oldest];
+            let data = unsafe { std::slice::from_raw_parts(ob.data as *const u8, ob.len) };
+            if !guards_ok(&ob) || data.iter().any(|x| *x != POISON) {
+                e.violations.push(format!("released storage block {} was written after release", oldest));
+            }
+            unsafe { System.dealloc(ob.base as *mut u8, Layout::from_size_align_unchecked(ob.total, ob.align.max(GUARD))) };
+            e.quarantined_bytes -= ob.total;
+            e.blocks[oldest].state = BlockState::Freed;
+            e.blocks[oldest].total = 0;
+        }
     });
 }
 
@@ -177,6 +203,9 @@ pub fn block_release(id: usize) {
 pub fn check() -> Option<String> {
     with(|e| {
         for (id, b) in e.blocks.iter().enumerate() {
+            if b.state == BlockState::Freed {
+                continue;
+            }
             if !guards_ok(b) {
                 return Some(format!("guard zone of storage block {} ({} bytes) overwritten", id, b.len));
             }
